@@ -63,6 +63,10 @@ type ArchiveDecoder struct {
 	d    FormatDecoder
 	dir  string
 	last interface{}
+
+	// Set once the first entry, the root of the archive, was decoded
+	started   bool
+	rootIsDir bool
 }
 
 // NewArchiveDecoder initializes a decoder for a catar archive.
@@ -163,8 +167,25 @@ loop:
 		}
 	}
 
+	// Only the first entry of an archive, its root, comes without a filename
+	// and only a directory can have further entries. An unnamed entry further
+	// down would take the place of the directory it is in, and entries behind
+	// a root that is a symlink would be created wherever that points to.
+	isDir := payload == nil && device == nil && symlink == nil
+	if a.started {
+		if name == "" {
+			return nil, InvalidFormat{"entry without filename"}
+		}
+		if !a.rootIsDir {
+			return nil, InvalidFormat{"entry follows a root that is not a directory"}
+		}
+	} else {
+		a.started = true
+		a.rootIsDir = isDir
+	}
+
 	// If it doesn't have a payload or is a device/symlink, it must be a directory
-	if payload == nil && device == nil && symlink == nil {
+	if isDir {
 		a.dir = path.Join(a.dir, name)
 		return NodeDirectory{
 			Name:   a.dir,
